@@ -227,6 +227,10 @@ def run(ctx):
                        {'wgsl': s3}, rr[:2] == (ranges, stages) if k3 == 'ok' else True, str(rr)[:300])
     ctx.differential(src, {})
     ctx.differential(src.replace('var<push_constant> g1', 'var<private> g1'), {})
+    # "same stage set as the stages using the variable": the stage analysis on call sequences shared between entry points, with the
+    # push constant used by the low helper (all nesting contexts are C03's)
+    from harness import c03 as C03
+    C03.sequences(ctx, 2, 2, seen, low_use='pc')
     ctx.extra['violations_by_rule'] = seen
 
 
